@@ -5,13 +5,14 @@ import WcModel.Spec.PathLang
 namespace WcModel.Driver
 open WcModel.Proto
 
-/-- `spec <ci> <ext> <pattern> <name>…` → `ok <bits> <startSafe> <negFree>` (documented language, no dot rule) or
+/-- `spec <ci> <ext> <dot> <pattern> <name>…` → `ok <bits> <startSafe> <negFree>` (documented language, no dot rule) or
     `none` when the pattern is outside the strict documented grammar, `oos` when a `!(…)` is
     outside the scope C01 states -/
 def handleSpec : List String → Option String
-  | ci :: ext :: p :: names => do
+  | ci :: ext :: dot :: p :: names => do
     let ci ← decBool ci
     let ext ← decBool ext
+    let dot ← decBool dot
     let pat ← decStr p
     match Grammar.parsePat ext pat with
     | none => pure "none"
@@ -19,7 +20,7 @@ def handleSpec : List String → Option String
       if !g.c01Scope || !g.noSlash then pure "oos" else
       let ns ← names.mapM decStr
       pure ("ok " ++ String.ofList (ns.map (fun n => if g.langB ci n then '1' else '0')) ++
-        " " ++ encBool g.startSafe ++ " " ++ encBool g.negFree)
+        " " ++ encBool (g.startSafe dot) ++ " " ++ encBool g.negFree)
   | _ => none
 
 end WcModel.Driver
@@ -36,11 +37,11 @@ structure SegInfo where
   d15 : Bool := false
   firstGlob : Bool := false
 
-def segInfo (pp : PathPat) : SegInfo :=
+def segInfo (dot : Bool) (pp : PathPat) : SegInfo :=
   let i := pp.segs.foldl (fun (acc : SegInfo) s => match s with
     | .glob => acc
     | .pat g => { acc with scope := acc.scope && g.c01Scope && !g.langB false [],
-                           startSafe := acc.startSafe && g.startSafe, negFree := acc.negFree && g.negFree,
+                           startSafe := acc.startSafe && g.startSafe dot, negFree := acc.negFree && g.negFree,
                            d4 := acc.d4 || g.d4Trigger, d5 := acc.d5 || g.d5Trigger,
                            d15 := acc.d15 || g.d15Trigger }) {}
   { i with firstGlob := match pp.segs with | .glob :: _ => true | _ => false }
@@ -58,7 +59,7 @@ def handlePSpec : List String → Option String
     match parsePath ctx pat with
     | none => pure "none"
     | some pp =>
-      let i := segInfo pp
+      let i := segInfo ctx.dot pp
       if !i.scope then pure "oos" else
       let ps ← paths.mapM decStr
       pure ("ok " ++ String.ofList (ps.map (fun n => if pathLangR ctx r pp n then '1' else '0')) ++
